@@ -43,7 +43,7 @@ Qed.
 (* ------------------------------------------------------------------ *)
 (** * (1) Unfolding the verdict *)
 
-Theorem taste_good_inv : forall o limit d, taste_good o limit d = true ->
+Theorem taste_good_inv : forall close o limit d, taste_good close o limit d = true ->
   exists ht op lvs,
     pd_header d = Some ht /\ open_header ht limit = Some op /\
     open_levels d op (t_data o) = Some lvs /\
@@ -52,9 +52,10 @@ Theorem taste_good_inv : forall o limit d, taste_good o limit d = true ->
      Forall (fun lc => check_headers (blen (o_keys op)) (fst lc) (snd lc) = true) lvs) /\
     (t_shape o = true ->
      Forall (fun lc => check_shape (blen (o_keys op)) (fst lc) (snd lc) = true) lvs) /\
-    (t_data o = true -> t_headers o = true /\ t_shape o = true).
+    (t_data o && negb (t_headers o && t_shape o) = true ->
+     Forall (fun lc => check_data close (blen (o_keys op)) (fst lc) (snd lc) = true) lvs).
 Proof.
-  intros o limit d H. unfold taste_good in H.
+  intros close o limit d H. unfold taste_good in H.
   destruct (pd_header d) as [ht|] eqn:Eh; [|discriminate].
   destruct (open_header ht limit) as [op|] eqn:Eo; [|discriminate].
   destruct (open_levels d op (t_data o)) as [lvs|] eqn:El; [|discriminate].
@@ -68,8 +69,7 @@ Proof.
   - apply forallb_Forall in H1. exact H1.
   - intros E. rewrite E in H2. apply forallb_Forall in H2. exact H2.
   - intros E. rewrite E in H3. apply forallb_Forall in H3. exact H3.
-  - intros E. rewrite E in H4.
-    destruct (t_headers o), (t_shape o); cbn in H4; try discriminate. split; reflexivity.
+  - intros E. rewrite E in H4. apply forallb_Forall in H4. exact H4.
 Qed.
 
 Theorem open_levels_inv : forall d op mm lvs, open_levels d op mm = Some lvs ->
@@ -89,9 +89,9 @@ Proof.
   exists t, r. split; assumption.
 Qed.
 
-Theorem taste_rejects_missing_header : forall o limit d,
-  pd_header d = None -> taste_good o limit d = false.
-Proof. intros o limit d H. unfold taste_good. rewrite H. reflexivity. Qed.
+Theorem taste_rejects_missing_header : forall close o limit d,
+  pd_header d = None -> taste_good close o limit d = false.
+Proof. intros close o limit d H. unfold taste_good. rewrite H. reflexivity. Qed.
 
 Lemma existsb_lookup : forall (f : bytes) (l : list (bytes * bytes)),
   existsb (fun nf => bytes_eqb (fst nf) f) l = true ->
